@@ -2416,6 +2416,15 @@ class Interp:
                 v0 = vals[0].get() if isinstance(vals[0], Ref) else vals[0]
                 if isinstance(v0, (str, int, float, bool)):
                     return str(v0) if (c.path.endswith("to_string") and not isinstance(v0, str) and not isinstance(v0, bool)) else v0
+            if "::" in c.path:
+                # a tuple-variant / tuple-struct constructor used as a function (`.map(RootDefinition::Function)`)
+                adt_path, vname = c.path.rsplit("::", 1)
+                adt = self.facts.adts.get(adt_path)
+                if adt is not None and any(v.get("name") == vname and len(v.get("fields") or []) == len(vals) for v in adt.get("variants", [])):
+                    return Enum(short(adt_path), vname, {str(i): v for i, v in enumerate(vals)})
+                adt = self.facts.adts.get(c.path)
+                if adt is not None and len(adt.get("variants", [])) == 1 and len(adt["variants"][0].get("fields") or []) == len(vals):
+                    return Enum(short(c.path), None, {str(i): v for i, v in enumerate(vals)})
             raise Unknown("call of function value " + c.path)
         raise Unknown("call of %r" % (c,))
 
